@@ -174,7 +174,7 @@ def genAxisAndAngle3d (eig : Rows → List EVal × List (List Rat)) (sqrt : Rat 
   let eval0 := p0.1
   let evec0 := p0.2
   let realevalmask0 := (eval0.map EVal.isReal)
-  let realeval0 := ((maskSel eval0 realevalmask0).map EVal.re)
+  let realeval0 := ((PyMask.sel eval0 realevalmask0).map EVal.re)
   let evecwithrealeval0 := (maskSel evec0 realevalmask0)
   let error0 := ((1 : Rat) / 10000000)
   let belowmargin0 := (realeval0.map fun v => decide (rabs v < ((1) + error0)))
@@ -271,7 +271,7 @@ def genAffineSetH (self : HState) (value : ArrV) (copy skipchecks : Bool) : Exce
           if (!((((shape0.getD (0) 0) - (1))) == 2 || (((shape0.getD (0) 0) - (1))) == 3)) then
             .error .valueError
           else
-            if (!((value.affineBottom) && (value.affineBottom))) then
+            if (!((value.bottomZeros) && (value.cornerOne))) then
               .error .valueError
             else
               if copy then
@@ -285,7 +285,7 @@ def genAffineSetH (self : HState) (value : ArrV) (copy skipchecks : Bool) : Exce
         if (!((((shape0.getD (0) 0) - (1))) == 2 || (((shape0.getD (0) 0) - (1))) == 3)) then
           .error .valueError
         else
-          if (!((value.affineBottom) && (value.affineBottom))) then
+          if (!((value.bottomZeros) && (value.cornerOne))) then
             .error .valueError
           else
             if copy then
